@@ -13,10 +13,11 @@ namespace {
 enum Kind : int {
     HSend, HRecv, HPeek, HSet, HClear, HMask,       // host API
     DReply, DCmdRead, DReplyPeek, DSet, DAck, DMask, DSetCI, // DSP side through MMIO
+    DStatusW,                                                 // a write to a (read-only) status register: no effect on any flag
     NKIND
 };
 const char* kKindName[] = {"hsend", "hrecv", "hpeek", "hset", "hclear", "hmask",
-                           "dreply", "dcmdread", "dreplypeek", "dset", "dack", "dmask", "dsetci"};
+                           "dreply", "dcmdread", "dreplypeek", "dset", "dack", "dmask", "dsetci", "dstatusw"};
 struct Op {
     int kind = HSend;
     uint16_t ch = 0;  // channel 0..2
@@ -48,6 +49,8 @@ struct Sys {
         t.Reset();
         // state that Reset() does not (yet) cover is cleared explicitly so that cases are independent
         t.MMIOWrite(0x0D4, 0);
+        t.MMIOWrite(0x0D6, 0); // (backing storage of the status cells, see above)
+        t.MMIOWrite(0x0D8, 0);
         t.MMIOWrite(0x202, 0xFFFF);
         for (auto& d : data_irq)
             d = 0;
@@ -113,14 +116,14 @@ rc::Gen<Op> genOp() {
                                               {2, gen::map(vf::range<int>(0, 16), [](int b) { return (uint16_t)(1u << b); })},
                                               {1, vf::u16b()}});
     auto kind = gen::weightedElement<int>({{4, HSend}, {2, HRecv}, {1, HPeek}, {3, HSet}, {3, HClear}, {3, HMask},
-                                           {4, DReply}, {2, DCmdRead}, {1, DReplyPeek}, {3, DSet}, {3, DAck}, {3, DMask}, {2, DSetCI}});
+                                           {4, DReply}, {2, DCmdRead}, {1, DReplyPeek}, {3, DSet}, {3, DAck}, {3, DMask}, {2, DSetCI}, {2, DStatusW}});
     return gen::map(gen::tuple(kind, vf::range<int>(0, 3), bits, vf::u16b(), vf::range<int>(0, 96)),
                     [](std::tuple<int, int, uint16_t, uint16_t, int> t) {
                         Op op;
                         op.kind = std::get<0>(t);
                         op.ch = (uint16_t)std::get<1>(t);
                         bool is_bits = op.kind == HSet || op.kind == HClear || op.kind == HMask || op.kind == DSet || op.kind == DAck ||
-                                       op.kind == DMask;
+                                       op.kind == DMask || op.kind == DStatusW;
                         op.v = is_bits ? std::get<2>(t) : std::get<3>(t);
                         if (op.kind == DSetCI)
                             op.v = std::get<3>(t) & 0x3104; // CI0 (8), CI1 (12), CI2 (13), END (2)
@@ -248,6 +251,10 @@ vf::Result check(const Case& cs) {
                 s.wr(0x0CE, op.v, op.path);
                 c2d.mask = op.v;
                 saw_sem = true;
+                break;
+            case DStatusW: // the status flags are live views of the mailbox / semaphore state: writing them changes nothing
+                s.wr(op.ch & 1 ? 0x0D8 : 0x0D6, op.v, op.path);
+                vf::klass("write to a status register");
                 break;
             case DSetCI:
                 s.wr(0x0D4, op.v, op.path);
